@@ -339,6 +339,23 @@ impl<'a, 'tcx> Cx<'a, 'tcx> {
                 }
                 Const::Unevaluated(u, _) => {
                     let _ = write!(out, ",\"item\":{}", js(&path_s(tcx, u.def)));
+                    // type arguments of an associated / generic constant (`<T as Trait>::CONST`): the Self type first
+                    let tys: Vec<String> = u
+                        .args
+                        .iter()
+                        .filter_map(|a| a.as_type())
+                        .map(|t| trunc_n(with_no_trimmed_paths!(t.to_string()), 300))
+                        .collect();
+                    if !tys.is_empty() && u.promoted.is_none() {
+                        out.push_str(",\"iargs\":[");
+                        for (i, t) in tys.iter().enumerate() {
+                            if i > 0 {
+                                out.push(',');
+                            }
+                            esc(t, out);
+                        }
+                        out.push(']');
+                    }
                     if u.promoted.is_none() {
                         CONST_ITEMS
                             .lock()
